@@ -179,6 +179,9 @@ func (r *Rollback) performRollback(currentRelease, targetRelease *release.Releas
 	// pre-rollback hooks
 	if !r.DisableHooks {
 		if err := r.cfg.execHook(targetRelease, release.HookPreRollback, r.WaitStrategy, r.Timeout); err != nil {
+			// Do not leave the new revision pending: that would block every later operation on the release.
+			targetRelease.SetStatus(release.StatusFailed, fmt.Sprintf("Rollback %q failed: %s", targetRelease.Name, err.Error()))
+			r.cfg.recordRelease(targetRelease)
 			return targetRelease, err
 		}
 	} else {
@@ -247,6 +250,8 @@ func (r *Rollback) performRollback(currentRelease, targetRelease *release.Releas
 	// post-rollback hooks
 	if !r.DisableHooks {
 		if err := r.cfg.execHook(targetRelease, release.HookPostRollback, r.WaitStrategy, r.Timeout); err != nil {
+			targetRelease.SetStatus(release.StatusFailed, fmt.Sprintf("Rollback %q failed: %s", targetRelease.Name, err.Error()))
+			r.cfg.recordRelease(targetRelease)
 			return targetRelease, err
 		}
 	}
